@@ -24,6 +24,7 @@ from gridrv import instrument
 from gridrv.oracles import numdiff as nd
 
 REL_W = 1e-6
+EPS32 = float(np.finfo(np.float32).eps)
 SHRINK = (1.0, 0.3, 0.1, 0.03, 0.01)
 NS = (33, 29, 33, 29, 33)
 
@@ -149,12 +150,37 @@ def check_call(ctx, tf, old, new):
         ctx.check("points-mapped", subject, same, sig="points!=transform(old.points)")
         rl = np.asarray(tf.transform(x.astype(nd.LD))).reshape(-1) if _chunk_for(tf) is None else nd.call_flat(tf.transform, x.astype(nd.LD), _chunk_for(tf))
         out["r_ld"] = rl
+        # a finite node inside the transform's domain never maps to NaN (inf is possible: singular end, overflow)
+        lo_d, hi_d = float(tf.domain[0]), float(tf.domain[1])
+        inside = np.isfinite(x) & (x >= lo_d) & (x <= hi_d)
+        nan_nodes = inside & np.isnan(np.asarray(new.points, dtype=float))
+        ctx.check("points-mapped", subject + ":not-nan", not bool(nan_nodes.any()), sig="nan-image-of-a-node-inside-the-domain", detail={"x": float(x[int(np.argmax(nan_nodes))]) if nan_nodes.any() else None, "n_nan": int(nan_nodes.sum())})
+        # input class: nodes stored as integers / float32 - same VALUES as for the float64 copy of the same nodes
+        pk = np.asarray(old.points).dtype
+        lowprec = any(np.asarray(a).dtype.kind == "f" and np.asarray(a).dtype.itemsize < 8 for a in (old.points, old.weights))
+        if pk != np.float64:
+            ref = np.asarray(tf.transform(x), dtype=float).reshape(-1)
+            fin = np.isfinite(ref) & np.isfinite(np.asarray(new.points, dtype=float))
+            if fin.any():
+                scale = np.maximum(np.abs(ref), 0.1 * np.abs(ref[fin]).max())
+                if pk.kind in "iu":
+                    tolp = 1e-12 * scale
+                else:
+                    tolp = EPS32 * (1e5 * scale + 300 * np.abs(ref - rl.astype(float)) / np.finfo(float).eps)
+                rp = np.abs(np.asarray(new.points, dtype=float) - ref)[fin] / (tolp[fin] + 1e-300)
+                ctx.check("points-mapped", subject + ":dtype", float(rp.max()), 1.0, sig=f"{pk.name}-nodes-map-differently-from-their-float64-copy", detail={"dtype": pk.name})
+                ctx.hit("decided:points-dtype")
 
         # ---- weights
         J, err, on_end = jacobian(tf, x)
         out["J"], out["Jerr"] = J, err
         aJ = np.abs(J)
-        tol = REL_W * aJ + 100 * err + _f64_noise_of_deriv(tf, x)
+        noise64 = _f64_noise_of_deriv(tf, x)
+        tol = REL_W * aJ + 100 * err + noise64
+        if lowprec:
+            # float32 nodes / weights: the library's arithmetic is float32 (parameters and derived constants rounded as well)
+            tol = tol + EPS32 * (1e5 * aJ + 30 * noise64 / np.finfo(float).eps)
+            ctx.count("calls-with-float32-grid")
         decided = np.isfinite(tol) & (tol <= 1e-3 * aJ) & (aJ > 0) & np.isfinite(new.weights) & np.isfinite(w)
         out["decided"] = decided
         ctx.count("nodes-decided", int(decided.sum()))
